@@ -56,7 +56,7 @@ TMetas == /\ IsEvent("Metas")
                      /\ Expect(E.obs.checkErrs = 0, "fallback state fails the integrity check")
 
 TGraph == /\ IsEvent("Graph")
-          /\ LET ok == Consistent(E.g) IN
+          /\ LET ok == Consistent([E.g EXCEPT !.fl = SeqSet(E.g.fl)]) IN
              /\ Expect(ok = (E.obs.checkErrs = 0), <<"Tx.Check verdict differs from the accounting predicate (C19); predicate says", ok>>)
              /\ Expect(E.obs.cli = -1 \/ (ok = (E.obs.cli = 0)), <<"bbolt check exit status differs from the accounting predicate (C19); predicate says", ok>>)
 
